@@ -42,6 +42,11 @@ mod c12 {
     include!(concat!(env!("XOOLIVE_RS1090_VERIF_DIR"), "/c12.rs"));
 }
 
+#[allow(dead_code)]
+mod c17 {
+    include!(concat!(env!("XOOLIVE_RS1090_VERIF_DIR"), "/c17.rs"));
+}
+
 fn dispatch<S: batch::Scenario>(sc: &S, cmd: &str, env: &batch::Env) -> i32 {
     match cmd {
         "check" => batch::run_check(sc, env).exit_code,
@@ -77,6 +82,7 @@ fn verif_entry() {
         "C09" => dispatch(&c09::C09, &cmd, &env),
         "C10" => dispatch(&c10::C10, &cmd, &env),
         "C12" => dispatch(&c12::C12, &cmd, &env),
+        "C17" => dispatch(&c17::C17, &cmd, &env),
         _ => {
             println!("HARNESS-ERROR: unknown property '{}'", prop);
             2
